@@ -342,7 +342,14 @@ def parse_from_children(p: Program, tc: TreeClass) -> FromChildren:
         if isinstance(st, ast.Assign) and len(st.targets) == 1 and isinstance(st.targets[0], ast.Name):
             name = st.targets[0].id
             v = st.value
-            if isinstance(v, ast.List) and not fc.tokens_var:
+            if isinstance(v, ast.Call) and dotted(v.func) in ('base.TokenStore.from_tokens', 'TokenStore.from_tokens') \
+                    and len(v.args) == 1 and isinstance(v.args[0], ast.List) and not fc.tokens_var:
+                # canonical form: the token list is written inside from_tokens([...])
+                fc.store_var = name
+                fc.tokens_var = '<inline>'
+                v = v.args[0]
+                name = '<inline>'
+            if isinstance(v, ast.List) and (not fc.tokens_var or name == '<inline>'):
                 fc.tokens_var = name
                 for el in v.elts:
                     if isinstance(el, ast.Starred) and isinstance(el.value, ast.Call) \
